@@ -360,19 +360,19 @@ Proof.
     + (* the mover is White *)
       rewrite <- Ec. destruct (N.eq_dec (at_ b f) (mk_piece c KING)) as [Ekf|Ekf].
       * apply (upd_king_moves b (brd q) ch simple_at _ k0 t Ht O3).
-        -- assert (f = k0) by now apply O3. subst. cbn. auto.
+        -- assert (Efk : f = k0) by now apply O3. rewrite <- Efk. unfold fsts, ch. cbn [map fst In]. auto.
         -- cbn [upd ch]. rewrite N.eqb_refl. destruct Hmt as [[_ ->]|(_ & Hp & _)]; [exact Ekf|].
            rewrite Hatf in Ekf. apply mk_piece_inj in Ekf; [|lia|unfold KING; lia]. unfold KING, PAWN in *. lia.
         -- intros s v [E|[E|[]]] Ev; injection E as <- <-; [reflexivity|]. unfold mk_piece, KING in Ev. lia.
       * apply (upd_king_stays b (brd q) ch simple_at _ k0 O1 O2 O3).
-        -- cbn. intros [E|[E|[]]]; [rewrite <- E in O2; contradiction|rewrite <- E in O2; contradiction].
+        -- unfold fsts, ch. cbn [map fst In]. intros [E|[E|[]]]; [rewrite <- E in O2; contradiction|rewrite <- E in O2; contradiction].
         -- intros s v [E|[E|[]]] Ev; injection E as <- <-.
            ++ destruct (P4 Ev) as [_ E2]. rewrite E2 in Ev. contradiction.
            ++ unfold mk_piece, KING in Ev. lia.
     + (* the mover is Black: the white king is the other king *)
       assert (Efc : flip c = WHITE) by (unfold flip, WHITE in *; lia).
       rewrite <- Efc. apply (upd_king_stays b (brd q) ch simple_at _ K (lf_Klt p K L) (lf_Kat p K L) (lf_Kuniq p K L)).
-      * cbn. intros [E|[E|[]]]; congruence.
+      * unfold fsts, ch. cbn [map fst In]. intros [E|[E|[]]]; congruence.
       * intros s v [E|[E|[]]] Ev; injection E as <- <-.
         -- rewrite Ev in P2. rewrite mk_piece_colour in P2 by (unfold KING; lia). congruence.
         -- unfold mk_piece, KING in Ev. lia.
@@ -380,18 +380,18 @@ Proof.
     destruct (N.eq_dec c BLACK) as [Ec|Ec].
     + rewrite <- Ec. destruct (N.eq_dec (at_ b f) (mk_piece c KING)) as [Ekf|Ekf].
       * apply (upd_king_moves b (brd q) ch simple_at _ k0 t Ht O3).
-        -- assert (f = k0) by now apply O3. subst. cbn. auto.
+        -- assert (Efk : f = k0) by now apply O3. rewrite <- Efk. unfold fsts, ch. cbn [map fst In]. auto.
         -- cbn [upd ch]. rewrite N.eqb_refl. destruct Hmt as [[_ ->]|(_ & Hp & _)]; [exact Ekf|].
            rewrite Hatf in Ekf. apply mk_piece_inj in Ekf; [|lia|unfold KING; lia]. unfold KING, PAWN in *. lia.
         -- intros s v [E|[E|[]]] Ev; injection E as <- <-; [reflexivity|]. unfold mk_piece, KING in Ev. lia.
       * apply (upd_king_stays b (brd q) ch simple_at _ k0 O1 O2 O3).
-        -- cbn. intros [E|[E|[]]]; [rewrite <- E in O2; contradiction|rewrite <- E in O2; contradiction].
+        -- unfold fsts, ch. cbn [map fst In]. intros [E|[E|[]]]; [rewrite <- E in O2; contradiction|rewrite <- E in O2; contradiction].
         -- intros s v [E|[E|[]]] Ev; injection E as <- <-.
            ++ destruct (P4 Ev) as [_ E2]. rewrite E2 in Ev. contradiction.
            ++ unfold mk_piece, KING in Ev. lia.
     + assert (Efc : flip c = BLACK) by (unfold flip, BLACK in *; lia).
       rewrite <- Efc. apply (upd_king_stays b (brd q) ch simple_at _ K (lf_Klt p K L) (lf_Kat p K L) (lf_Kuniq p K L)).
-      * cbn. intros [E|[E|[]]]; congruence.
+      * unfold fsts, ch. cbn [map fst In]. intros [E|[E|[]]]; congruence.
       * intros s v [E|[E|[]]] Ev; injection E as <- <-.
         -- rewrite Ev in P2. rewrite mk_piece_colour in P2 by (unfold KING; lia). congruence.
         -- unfold mk_piece, KING in Ev. lia.
@@ -404,7 +404,7 @@ Proof.
     apply (upd_rights_ok p q ch f t Hcr Hf Ht).
     + unfold q. now rewrite make_cr, Ef, Et.
     + exact simple_at.
-    + intros kf kt rf bit em _ _ A2 A3 A4 A5. cbn. split; intros [E|[E|[]]]; congruence.
+    + intros kf kt rf bit em _ _ A2 A3 A4 A5. unfold fsts, ch. cbn [map fst In]. split; intros [E|[E|[]]]; congruence.
     + exact Hro.
 Qed.
 
